@@ -74,4 +74,33 @@ PROPS = {
              "alias written from both sides. Distinct = hash of the decoded history.",
         assumptions=COMMON_ASSUME,
     ),
+    "C14": dict(
+        bin="h_array", sub="c14", level="exploration",
+        technique="rapidcheck-generated assign/replace/clear/unit/uncertainty/reopen histories on a Property compared with a model after every step",
+        level_text="generated histories over the 7 value types and the three createProperty overloads: assign vectors of 0-64 values (numeric "
+                   "extremes, -0.0, denormals, NaN, inf, empty/long/UTF-8 strings), replace, deleteValues, values(none), wrong-type and mixed-type "
+                   "assignments (must throw and change nothing), unit/uncertainty/definition set and unset, reopen; after every step values(), "
+                   "valueCount(), dataType(), unit, uncertainty, definition are compared with the model",
+        level_note="doubles compared bitwise except NaN (by class); the value count of a property created without values is not asserted "
+                   "before the first assignment; units without blanks (the setter removes blanks)",
+        quick=dict(cases=2500, size=300, workers=16, timeout=1800),
+        thorough=dict(cases=20000, size=300, workers=16, timeout=14400),
+        rule="tape -> value type, creation overload, up to 24 operations. Non-trivial: assignments of at least 2 different lengths with a reopen "
+             "inside the history, or a rejected wrong-type/mixed-type assignment. Distinct = hash of the decoded history.",
+        assumptions=COMMON_ASSUME + ["strings never contain NUL"],
+    ),
+    "C15": dict(
+        bin="h_array", sub="c15", level="exploration",
+        technique="rapidcheck-generated row-count/write histories on a DataFrame; every cell re-read through row, cell and column access and compared with a model table",
+        level_text="generated schemas (1-8 columns over the 7 cell types, units) and histories of rows(n), writeRow, writeCell, writeCells (by "
+                   "index / by name, any column subset and order), writeColumn (offset, count), reopen; after every step every cell is read "
+                   "back through readRow, readCells, readCell and readColumn (resize on/off, offset) and compared with the model table, "
+                   "together with columns(), colIndex, colName, rows()",
+        level_note="std::vector<bool> has no column front end, Bool columns are read through the row and cell paths only",
+        quick=dict(cases=120, size=300, workers=16, timeout=1800),
+        thorough=dict(cases=3000, size=300, workers=16, timeout=14400),
+        rule="tape -> schema, compression, up to 20 operations. Non-trivial: a cell/column write together with at least 2 row-count changes, or a "
+             "String column with rows that were never written. Distinct = hash of the decoded history.",
+        assumptions=COMMON_ASSUME + ["strings never contain NUL"],
+    ),
 }
